@@ -26,6 +26,8 @@ type input struct {
 	// skip-not-abort: the same document with one injected invalid construct
 	Injected  *gen.Doc `json:"injected,omitempty"`
 	Construct string   `json:"construct,omitempty"`
+	// focus documents: sub-domain tags computed by the generator (evidence counters)
+	Tags []string `json:"tags,omitempty"`
 }
 
 // stallLimit: number of consecutive page-loop iterations with an identical state that is taken as
@@ -39,14 +41,27 @@ func counts(tier string) (docs, skips int) {
 	return 3000, 600
 }
 
+// focusCount: focused small documents of props/c01/focus.go (svg <use> reference graphs, table
+// column-width mixes), appended after the hostile documents and the skip pairs so that the
+// earlier cases keep their index and random stream.
+func focusCount(tier string) int {
+	if tier == "thorough" {
+		return 6000
+	}
+	return 500
+}
+
 func init() {
 	fw.Register(&fw.Prop{
 		ID: "C01",
 		Rule: "cases: (a) grammar-generated hostile HTML+CSS documents (<= 80 elements, depth <= 8, <= ~4 KiB; ~45 element kinds incl. tables/lists/forms/img/inline svg, 170 CSS properties with valid, boundary and invalid values, @page/@media/@counter-style/@font-face/@import, var() incl. cycles, RTL/CJK/soft-hyphen text, presentational attributes), rendered through NewHTML → Render → Write on the recording backend, pango engine or go-text engine chosen by the seed, hints on/off; " +
-			"(b) skip-not-abort pairs: a base document of unique word tokens and the same document with one injected invalid construct. Non-trivial: the render completed and drew at least one text run (a) / both renders completed and the base drew >= 4 tokens (b); distinct = distinct input.",
-		N: func(tier string) int { d, s := counts(tier); return d + s },
+			"(c) focused small documents: svg <use> reference graphs (acyclic, cyclic, dangling; inline or as <img>) and tables mixing percentage / fixed / auto / empty columns under auto and fixed table widths; (b) skip-not-abort pairs: a base document of unique word tokens and the same document with one injected invalid construct. Non-trivial: the render completed and drew at least one text run (a) / both renders completed and the base drew >= 4 tokens (b); distinct = distinct input.",
+		N: func(tier string) int { d, s := counts(tier); return d + s + focusCount(tier) },
 		Gen: func(r *rand.Rand, i int, tier string) any {
-			d, _ := counts(tier)
+			d, sk := counts(tier)
+			if i >= d+sk {
+				return genFocus(r, i-d-sk)
+			}
 			if i < d {
 				doc := gen.HTMLDoc(r)
 				if r.Intn(5) == 0 {
@@ -64,7 +79,8 @@ func init() {
 			return 2000
 		},
 		CounterFloors: func(tier string) map[string]int64 {
-			return map[string]int64{"docs_multi_page": 300, "pages": 5000, "draw_text_events": 10000, "skip_pairs_checked": 300, "engine_gotext": 100, "docs_degenerate-floats": 150, "docs_quote-stress": 150, "docs_collapsed-borders": 120, "docs_svg-stroke": 120}
+			return map[string]int64{"docs_multi_page": 300, "pages": 5000, "draw_text_events": 10000, "skip_pairs_checked": 300, "engine_gotext": 100, "docs_degenerate-floats": 150, "docs_quote-stress": 150, "docs_collapsed-borders": 120, "docs_svg-stroke": 120,
+				"focus_svg_use_graph": 150, "focus_svg_use_cyclic": 60, "focus_svg_use_after_use": 60, "focus_table_width_mix": 150, "focus_table_pct_then_fixed": 40, "focus_table_no_free_column": 40}
 		},
 		Assumptions: []string{
 			"termination is decided as bounded progress: CPU budget of 120 s per bounded document (>= 40x the worst legitimate cost seen) and no " + fmt.Sprint(stallLimit) + " consecutive identical page-loop states; an unbounded 'eventually' is out of reach of runtime monitoring",
@@ -146,7 +162,10 @@ func check(raw json.RawMessage) fw.Result {
 	} else {
 		res.Count("engine_pango", 1)
 	}
-	if in.Kind == "doc" {
+	for _, t := range in.Tags {
+		res.Count("focus_"+t, 1)
+	}
+	if in.Kind == "doc" || in.Kind == "focus" {
 		res.Nontrivial = nText > 0
 		return res
 	}
